@@ -570,10 +570,13 @@ func interleavings(counts []int, f func(order []int)) {
 
 // seqPlansC12 returns the numberings explored for a stream of n chunks sent as nmsgs messages.
 // quick:    plain numbering from 2 for every stream; additionally, for streams of at most 2 messages
-//           or at most 5 chunks: plain from 1 and the roll-over (last = 2^32-1025) to 0 and to 1,
-//           placed after the OPN chunk and after every stream chunk.
+//
+//	or at most 5 chunks: plain from 1 and the roll-over (last = 2^32-1025) to 0 and to 1,
+//	placed after the OPN chunk and after every stream chunk.
+//
 // thorough: the quick set for every stream; for streams of at most 2 messages or at most 5 chunks
-//           additionally plain from 1000, last in {2^32-1024, 2^32-1} and roll-over to 1023.
+//
+//	additionally plain from 1000, last in {2^32-1024, 2^32-1} and roll-over to 1023.
 func seqPlansC12(n, nmsgs int, thorough bool) []seqPlan {
 	plans := []seqPlan{{Plain: true, First: 2}}
 	small := nmsgs <= 2 || n <= 5
